@@ -310,7 +310,7 @@ func (c schemaContents) getDevices() ([]schemaContents, error) {
 
 // validateContents performs additional validation against the schema contents.
 func (s *Schema) validateContents(any map[string]interface{}) error {
-	if any == nil || s == nil {
+	if any == nil || s == nil || s.schema == nil {
 		return nil
 	}
 
